@@ -1,6 +1,7 @@
 package main
 
 import (
+	"regexp"
 	"bytes"
 	"errors"
 	"fmt"
@@ -68,8 +69,32 @@ func init() {
 	families["shipped"] = func(c *ctx) {
 		cor := corpus()
 		c.stat("corpus", len(cor))
+		// other code in the same process derives richer policies from the shipped constructors;
+		// what the constructors return afterwards (and returned before) must not notice
+		early := bluemonday.UGCPolicy()
+		derive := func() {
+			bluemonday.UGCPolicy().AllowElementsMatching(regexp.MustCompile(`^x-`)).AllowAttrs("onload", "style").OnElementsMatching(regexp.MustCompile(`^(x-|iframe$|form$)`))
+			bluemonday.UGCPolicy().AllowStyles("position").Globally()
+			bluemonday.UGCPolicy().AllowElementsContent("object", "title", "iframe").SkipElementsContent("p")
+			bluemonday.UGCPolicy().AllowNoAttrs().OnElementsMatching(regexp.MustCompile(`^(embed|x-.*)$`))
+			bluemonday.StrictPolicy().AllowElements("script", "b").AllowAttrs("onclick").Globally().AllowUnsafe(true)
+			bluemonday.NewPolicy().AllowElementsContent("object").AllowElements("i")
+		}
+		derive()
+		polluted := []string{"<x-a onload=\"1\" style=\"position: fixed\">t</x-a>", "<object>secret</object><title>t</title>", "<p>kept</p><embed>", "<b onclick=\"1\">b</b><script>s</script><i>i</i>",
+			"<iframe onload=x></iframe><form onload=y>f</form>"}
+		{
+			c.pid++
+			fmt.Fprintf(c.w, "policy %d %s %s\n", c.pid, "@UGC", bmx.HexS(early.VerifDump(sourceNamer)))
+			for _, d := range polluted {
+				c.san(c.pid, early, []byte(d))
+			}
+		}
 		for _, name := range []string{"@STRICT", "@UGC"} {
 			pid, pol := c.shipped(name)
+			for _, d := range polluted {
+				c.san(pid, pol, []byte(d))
+			}
 			for _, s := range cor {
 				c.san(pid, pol, []byte(s))
 			}
@@ -137,7 +162,7 @@ func init() {
 				}
 				pid, pol := c.policy(ops)
 				for _, d := range []string{"<a href=\"http://x.com/\">t</a>", "<a href=\"/rel\">t</a>", "<a target=\"_blank\" href=\"/r\">t</a>",
-					"<a rel=\"author\" href=\"http://x.com/\" target=\"_self\">t</a>", "<area href=\"http://x.com/\"><link href=\"http://x.com/\" crossorigin=\"x\">"} {
+					"<a rel=\"author\" href=\"http://x.com/\" target=\"_self\">t</a>", "<a rel=\"author\" target=\"_blank\" href=\"http://x.com/\">t</a>", "<a href=\"/r\" rel=\"x\" target=\"_BLANK\">t</a>", "<area href=\"http://x.com/\"><link href=\"http://x.com/\" crossorigin=\"x\">"} {
 					emit(pid, pol, []byte(d))
 				}
 			}
@@ -243,6 +268,10 @@ func init() {
 					in = []byte(bmx.Pick(c.r, []string{"<p>a<script>var x = 1 < 2;</script>b<!-- c --><style>p{}</style><i>c</i></p>",
 						"<script>unterminated", "<b id=1>t</b><style>x{y:z}</style><!--c-->", "x<script>s</script><script>t</script>y"}))
 				}
+				if k == 2 && round%2 == 1 {
+					// a failure that lands inside an open skip-content / dropped element
+					in = []byte(bmx.Pick(c.r, []string{"a<object>b<b>c", "x<title>unclosed", "<a>1<a>2<object>3<iframe>4", "t<frameset><b>u</b>"}))
+				}
 				if strings.TrimSpace(string(in)) == "" {
 					continue
 				}
@@ -268,6 +297,20 @@ func init() {
 						}
 					}
 				}
+				// calls made after the failed ones must not notice them
+				for _, probe := range []string{"p<b>q</b>r", "<p>after</p>"} {
+					fmt.Fprintf(c.w, "after %d %s %s\n", pid, bmx.HexField([]byte(probe)), safeSanitize(pol, []byte(probe)))
+				}
+				// a destination whose failing Write takes part of the data (half of it, or all of it)
+				for fk := 0; fk <= total && fk < 12; fk++ {
+					for _, frac := range []int{2, 1} {
+						pw := &partialWriter{failAt: fk, frac: frac}
+						err := pol.SanitizeReaderToWriter(bytes.NewReader(in), pw)
+						fmt.Fprintf(c.w, "pfault %d %s %d %s %d %s %s\n", pid, bmx.HexField(in), fk, b01(err != nil), pw.calls,
+							bmx.HexField(pw.accepted), bmx.HexField(full.Bytes()))
+						i++
+					}
+				}
 				// reader failures at a few offsets
 				for _, off := range []int{0, 1, len(in) / 2, len(in) - 1, len(in)} {
 					if off < 0 || off > len(in) {
@@ -282,9 +325,14 @@ func init() {
 							rb := pol.SanitizeReader(&failingReader{data: in, failAt: off, withData: withData, err: ferr})
 							fmt.Fprintf(c.w, "rfault %d %s %d %s %s %s %d\n", pid, bmx.HexField(in), off, b01(withData), b01(err != nil),
 								bmx.HexField(w.Bytes()), rb.Len())
+							// the caller uses the buffer it was handed (a placeholder for the failed document)
+							rb.WriteString("[document unavailable]")
 							i++
 						}
 					}
+				}
+				for _, probe := range []string{"p<b>q</b>r", string(in)} {
+					fmt.Fprintf(c.w, "after %d %s %s\n", pid, bmx.HexField([]byte(probe)), safeSanitize(pol, []byte(probe)))
 				}
 			}
 		}
@@ -299,12 +347,24 @@ func init() {
 				&bmx.Op{Kind: "AA", Names: []string{"id"}, Re: bmx.NewRE(`^[0-9]+$`), Scope: "M", ScopeRe: bmx.NewRE(`-`)},
 				&bmx.Op{Kind: "AS", Names: []string{"color"}, Enum: []string{"red"}, Scope: "M", ScopeRe: bmx.NewRE(`^my-`)},
 				&bmx.Op{Kind: "AS", Names: []string{"color", "width"}, Handler: "always", Scope: "M", ScopeRe: bmx.NewRE(`el$`)})
+			// several rules for one attribute on one pattern (a rule slice with spare capacity), a rule
+			// for the same attribute on two further overlapping patterns
+			pw := bmx.NewRE(`^w-`)
+			for _, src := range []string{`^a+$`, `^b+$`, `^c+$`} {
+				ops = append(ops, &bmx.Op{Kind: "AA", Names: []string{"title"}, Re: bmx.NewRE(src), Scope: "M", ScopeRe: pw})
+			}
+			ops = append(ops, &bmx.Op{Kind: "AA", Names: []string{"title"}, Re: bmx.NewRE(`^d+$`), Scope: "M", ScopeRe: bmx.NewRE(`-x$`)},
+				&bmx.Op{Kind: "AA", Names: []string{"title"}, Re: bmx.NewRE(`^e+$`), Scope: "M", ScopeRe: bmx.NewRE(`^w-.*-x$`)})
 			pid, pol := c.policy(ops)
 			g := bmx.NewDocGen(c.r, ops)
 			inputs := make([][]byte, 16)
 			seq := make([]string, len(inputs))
 			for k := range inputs {
 				inputs[k] = g.Doc(1 + c.r.Intn(14))
+				if k%4 == 3 {
+					v := bmx.Pick(c.r, []string{"aaa", "bbb", "ccc", "ddd", "eee", "zzz"})
+					inputs[k] = []byte("<w-k-x title=\"" + v + "\">t</w-k-x><w-k title=\"" + v + "\">u</w-k><q-x title=\"" + v + "\">v</q-x>")
+				}
 				seq[k] = pol.Sanitize(string(inputs[k]))
 			}
 			const G = 12
@@ -387,6 +447,17 @@ func init() {
 				op = "timeonly" // too long for the interpreted model to replay quickly; wall clock only
 			}
 			fmt.Fprintf(c.w, "%s %d %s %s %d\n", op, pid, bmx.HexField(in), out, us)
+		}
+		// escapes beyond the BMP, alone and repeated (the decoder's loop must advance on each of them)
+		for _, v := range []string{"font-family: \\1f4a9, serif", "font-family: \\1f4a9\\1f4a9, serif", "color: \\1f600\\1f600\\1f600", "font-family: \\10ffff\\10ffff x",
+			"font-family: a\\1f4a9 b\\1f4a9", "color: \\110000\\110000", "font-family: \\d800\\d800, serif"} {
+			timeit([]byte("<b style=\"" + v + "\">x</b>"))
+		}
+		// shorthand values with exactly n components (no damaged token at the end)
+		for _, n := range []int{15, 16, 17, 31, 32, 33, 63, 64, 65} {
+			for _, sh := range []string{"margin", "border", "font", "transition", "grid"} {
+				timeit([]byte("<b style=\"" + sh + ": " + strings.TrimSpace(strings.Repeat("1px ", n)) + "\">x</b>"))
+			}
 		}
 		sizes := []int{2, 4, 8, 12, 16, 24, 32, 64, 128, 200}
 		if c.n > 2000 {
@@ -688,6 +759,8 @@ func init() {
 			directedC02(c)
 		case "C10":
 			directedC10(c)
+		case "C18":
+			directedC18(c)
 		default:
 			families["san"](c)
 		}
@@ -757,6 +830,28 @@ func (w *faultWriter) Write(p []byte) (int, error) {
 	w.calls++
 	if w.failAt >= 0 && (k == w.failAt || (w.permanent && k > w.failAt)) {
 		return 0, errInjected
+	}
+	w.accepted = append(w.accepted, p...)
+	return len(p), nil
+}
+
+// partialWriter has no WriteString; its failAt-th Write takes len/frac bytes and fails
+type partialWriter struct {
+	failAt, frac int
+	calls        int
+	accepted     []byte
+}
+
+func (w *partialWriter) Write(p []byte) (int, error) {
+	k := w.calls
+	w.calls++
+	if k >= w.failAt {
+		n := len(p) / w.frac
+		if k > w.failAt {
+			n = 0
+		}
+		w.accepted = append(w.accepted, p[:n]...)
+		return n, errInjected
 	}
 	w.accepted = append(w.accepted, p...)
 	return len(p), nil
